@@ -80,6 +80,9 @@ var labels = []string{
 	"validateEmpty", "protoMarshal", "protoUnmarshal", "putBytesCall", "deleteBytesCall",
 	"walAppend", "walAppendSync", "memUpsert", "memDelete", "memTombstone", "memSizeEstimate",
 	"rotateAndHandOff", "walRotate", "swapMemstore", "newMemStore", "walClose", "currentSSTable", "readerClose",
+	// error-path cleanups (fixes edfc7e7, a9ebc7d): a failed Open forgets the readers it closed; a WAL file writer that
+	// failed to open is closed again
+	"clearReaders", "closeFailedWalWriter",
 	// flush
 	"executeFlush", "memSize", "genIncrement", "mkdirTable", "flushWithTombstones", "removeWalFile", "openReader", "addReader",
 	"newSuperReader", "flushMemstoreCall", "newStreamWriter", "writerOpen", "writerWriteNext", "writerClose", "memIterator", "iterNext",
@@ -326,6 +329,8 @@ func (w *walker) classify(callee string, args []string) (string, string, bool) {
 		return "currentSSTable", "", true
 	case callee == "(db.sstableManager.currentSSTable).Close":
 		return "readerClose", "", true
+	case callee == "db.sstableManager.clearReaders":
+		return "clearReaders", "", true
 	// ---- flush
 	case callee == "executeFlush" && in("DB.replayAndSetupWriteAheadLog"):
 		return "executeFlushInRecovery", "", true
@@ -496,6 +501,8 @@ func (w *walker) classify(callee string, args []string) (string, string, bool) {
 		return "walWriterFactory", "", true
 	case callee == "currentWriter.Open" && in("wal.setupNextWriter"):
 		return "openWalWriter", "", true
+	case callee == "currentWriter.Close" && in("wal.setupNextWriter"):
+		return "closeFailedWalWriter", "", true
 	case callee == "r.replayFile":
 		return "replayFile", "", true
 	case callee == "r.walOptions.readerFactory":
